@@ -153,23 +153,57 @@ pub fn build_2d_from_cmap_file<T: CoordsFloat>(
         ));
     }
 
-    for (d, b0d, b1d, b2d) in multizip((
-        (1..=f.meta.2),
-        b0.into_iter().skip(1),
-        b1.into_iter().skip(1),
-        b2.into_iter().skip(1),
-    )) {
-        let b0d = b0d.map_err(|_| BuilderError::BadValue("could not parse a b0 value"))?;
-        let b1d = b1d.map_err(|_| BuilderError::BadValue("could not parse a b1 value"))?;
-        let b2d = b2d.map_err(|_| BuilderError::BadValue("could not parse a b2 value"))?;
-        map.set_betas(d as DartIdType, [b0d, b1d, b2d]);
+    // parse every image (null dart column included) before touching the map
+    let n_darts = f.meta.2 + 1;
+    let mut images: Vec<[DartIdType; 3]> = Vec::with_capacity(n_darts);
+    for (b0d, b1d, b2d) in multizip((b0.into_iter(), b1.into_iter(), b2.into_iter())) {
+        let b0d: DartIdType =
+            b0d.map_err(|_| BuilderError::BadValue("could not parse a b0 value"))?;
+        let b1d: DartIdType =
+            b1d.map_err(|_| BuilderError::BadValue("could not parse a b1 value"))?;
+        let b2d: DartIdType =
+            b2d.map_err(|_| BuilderError::BadValue("could not parse a b2 value"))?;
+        images.push([b0d, b1d, b2d]);
+    }
+    // check the structural invariants of a 2-map
+    if images[0] != [0, 0, 0] {
+        return Err(BuilderError::InconsistentData(
+            "non-null image of the null dart",
+        ));
+    }
+    if images.iter().flatten().any(|&b| b as usize >= n_darts) {
+        return Err(BuilderError::InconsistentData(
+            "beta image is not an existing dart",
+        ));
+    }
+    for (d, &[b0d, b1d, b2d]) in images.iter().enumerate().skip(1) {
+        if (b1d != 0 && images[b1d as usize][0] as usize != d)
+            || (b0d != 0 && images[b0d as usize][1] as usize != d)
+        {
+            return Err(BuilderError::InconsistentData(
+                "beta 0 is not the inverse of beta 1",
+            ));
+        }
+        if b2d != 0 && (images[b2d as usize][2] as usize != d || b2d as usize == d) {
+            return Err(BuilderError::InconsistentData(
+                "beta 2 is not a fixed-point-free involution",
+            ));
+        }
+    }
+    for (d, &imgs) in images.iter().enumerate().skip(1) {
+        map.set_betas(d as DartIdType, imgs);
     }
 
     if let Some(unused) = f.unused {
         for u in unused.split_whitespace() {
-            let d = u
+            let d: DartIdType = u
                 .parse()
                 .map_err(|_| BuilderError::BadValue("could not parse an unused ID"))?;
+            if d == 0 || d as usize >= n_darts || !map.is_free(d) || map.is_unused(d) {
+                return Err(BuilderError::InconsistentData(
+                    "unused ID is not a free dart, or is listed twice",
+                ));
+            }
             map.remove_free_dart(d);
         }
     }
@@ -194,6 +228,11 @@ pub fn build_2d_from_cmap_file<T: CoordsFloat>(
                 .map_err(|_| BuilderError::BadValue("could not parse vertex y coordinate"))?;
             if it.next().is_some() {
                 return Err(BuilderError::BadValue("incorrect vertex line format"));
+            }
+            if id == 0 || id as usize >= n_darts || map.is_unused(id) {
+                return Err(BuilderError::InconsistentData(
+                    "vertex ID is not an existing dart",
+                ));
             }
             map.force_write_vertex(id, (T::from(x).unwrap(), T::from(y).unwrap()));
         }
